@@ -21,7 +21,7 @@ TEXT = {
             "Generator is a strict subset of the class (sigma_min(A_free)>=0.2, eig(Q) in [0.5,20], strictly feasible interior point), so a failure is never the generator's fault."),
     "C04": ("deterministic simulation: refinement check at the callback-device boundary, byte-for-byte vs. reference transformation",
             "What the core algorithm saw on every iterate of simulated runs plus seeded probe points equals the reference power-of-two/slack transformation of what the device returned, compared as raw bytes; round trips and start slacks likewise.",
-            "Weights limited to |w|<=40 and data to moderate magnitude so that no overflow/underflow occurs (the property's 'absent overflow')."),
+            "Weights limited to |w|<=100 (any integer dtype) and data to 2^+-40, so that no overflow/underflow of a double occurs (the property's 'absent overflow'); comparison is == on every entry."),
     "C05": ("deterministic simulation: device-side invariant monitor on every callback call, fault-free and faulted runs",
             "Every evaluation of every simulated run is checked at the device (argument inside the user's bounds exactly), with call-site attribution for the two stated exemptions; callback iterates and result likewise.",
             "Exemptions are recognised by function name on the stack (deriv_check, create_scaling)."),
@@ -32,25 +32,25 @@ TEXT = {
             "Reference-then-perturb: every position of the evaluation and linear-solve sequences of short reference runs is failed once (enumeration), longer runs and multi-fault/region/x0 modes are sampled; per-trial and per-run oracles.",
             "validate_input on (default); positions count inside solve(); faulted runs need not follow the reference trajectory, only never return wrong data."),
     "C08": ("deterministic simulation with crash-point enumeration: iteration budget k and deadline at clock read j vs. reference run",
-            "Every iteration budget and every clock-read position of the deadline (incl. reads inside the exact Newton loop) of short reference runs is enumerated; stopped runs must be byte-exact prefixes with the right status, result, counters and path.",
+            "Every iteration budget and every clock-read position of the deadline (incl. reads inside the exact Newton loop) of short reference runs is enumerated; stopped runs must be byte-exact prefixes with the right status, result, counters and path. A tenth of the worlds run the flow-integration solver under the same two limits (state after p integrations = end of the p-th path segment).",
             "Stop moment of a deadline = first read by the solver's own Timer at/after expiry; display reads share the clock but cannot stop the solver."),
     "C09": ("deterministic simulation over schedules: observer sets x virtual-clock display patterns vs. silent twin, byte-wise",
             "The virtual clock decides which rows are displayed; log level/handler, callbacks, path and rcond reporting (with injected failures of the estimator's own solves) are varied; trajectory digests must equal the silent run's.",
             "Formatting handler behaves like logging.StreamHandler."),
     "C10": ("deterministic simulation over histories: seeded solve sequences in one process vs. isolated twin in a pristine forked process",
-            "Sequences of solves (re-used solvers, shared and default Params, interleaved problems, aborted solves) are executed in one process; every solve must have the digest of the same solve alone in a freshly forked process.",
+            "Sequences of solves (re-used solvers, shared and default Params, interleaved problems, aborted solves, solves of the flow-integration solver in between) are executed in one process; every solve must have the digest of the same solve alone in a freshly forked process.",
             "Twins are forked before the history starts; harness callbacks are unregistered after each solve."),
     "C11": ("deterministic simulation with an aliasing device: value snapshots of every handed-out object + policy twins",
-            "The device hands out fresh/cached/memoised objects in COO/CSR/CSC, snapshots all caller-owned data and re-checks it at every later call; the three policies must give byte-identical trajectories.",
+            "The device hands out fresh / cached / memoised objects (memoised per point, or on the retained argument array) in COO/CSR/CSC, snapshots all caller-owned data (callback results, x0, y0, bounds incl. integer-dtype arrays, weights, the Params object) and re-checks it at every later call; all policies must give byte-identical trajectories.",
             "Sparse values compared canonically; writeable-flag flips are recorded, not failed."),
     "C12": ("deterministic simulation: history checking of trial log vs. callbacks vs. SolverResult",
-            "Over fault-free, faulted and limit-stopped runs with all penalty policies, the recorded trial log, the callback sequence and the result's counters/path/model_times/dist_factor must tell one story.",
+            "Over fault-free, faulted and limit-stopped runs with all penalty policies, the recorded trial log, the callback sequence and the result's counters/path/model_times/dist_factor must tell one story; observers that (un)register during a notification and a second solver object with a persistent observer are part of the schedule; under exact control the model-time increments are checked against the flow itself.",
             "Final-acceptance truth is the live penalty strategy's verdict (wrapped bound method)."),
     "C15": ("deterministic simulation with injected step failures: invariants over consecutive trials + independent implicit-Euler residual",
             "Every consecutive pair of trials of every run (four controllers, injected failures in half the worlds, small lamb_max) is checked; exact-control accepted steps are re-evaluated by the reference flow model.",
             "1e-8*sqrt(n) allowance for the code's active-set threshold, documented in DESIGN section 6."),
     "C16": ("deterministic simulation: history invariant over the penalty sequence seen by trials and by a callback observer",
-            "Positivity, monotonicity, constant policy, dual-norm bound and growth factor, change only after acceptance, and agreement between the trial log and solver.rho read inside callbacks.",
+            "Positivity, monotonicity, constant policy, dual-norm bound (relative to the first trial's penalty) and growth factor, change only after acceptance; observers include one that calls the solver's own single-step API from inside the callback.",
             "Dual-norm bound in internal (scaled) multiplier units."),
     "C18": ("deterministic simulation: seeded operation histories on the real PenaltyFilter vs. reference set model, plus live-filter monitor",
             "Operation sequences (ties, duplicates, grids and random floats) drive the real filter objects through filter_insert/update; after each op entries, return value, rho and veto are compared with a textbook Pareto model; the live filter is also monitored during filter-policy solves.",
